@@ -26,7 +26,10 @@ def spec(tier, seed):
     if tier == "quick":
         for sh, f, d in sym[:2]:
             inst.append(S("c03", 3, sh, [None, None], f, d, ["recon"], "C03 two hunks, symbolic stated lines", mem_gb=12, timeout=1500))
-        for (n, sh, ls, f, d) in rotate([c for c in conc if c[3] == 0], seed, 4):   # fuzz-1 instances need > 9 GB: thorough tier
+        # fuzz-1 instances need > 9 GB: thorough tier.  Both directions every time (the reversed direction swaps the hunk's two
+        # sides: a sign slip there only shows with a first hunk that changes the line count, which all these shapes do)
+        f0 = [c for c in conc if c[3] == 0]
+        for (n, sh, ls, f, d) in rotate([c for c in f0 if c[4] == "fwd"], seed, 2) + rotate([c for c in f0 if c[4] == "rev"], seed, 2):
             inst.append(S("c03", n, sh, ls, f, d, ["recon"], "C03 two hunks, stated lines from the matrix", mem_gb=9))
     else:
         for sh, f, d in sym:
